@@ -12,6 +12,8 @@ import subprocess
 from bvmon import harness
 
 STATUSES = ["clean", " M", "M ", "MM", "A ", "AM", " D", "D ", "R ", "R>", "RM", "RM>", "RD>", "??"]
+# only for the unrelated role: a git submodule whose pointer moved (unstaged / staged)
+SUB_STATUSES = ["sub: M", "sub:M "]
 ROLES = ["pattern", "unrelated"]
 
 SPEC = dict(
@@ -25,7 +27,7 @@ SPEC = dict(
                  "committed by `git commit` by design and are not asserted",
                  "a run is expected to proceed only when no pattern file is dirty (and the tree is clean or "
                  "--allow-dirty is given)"],
-    required=["aborts_checked", "proceeds_checked", "pattern_file_dirty_with_allow_dirty", "untracked_unrelated_not_blocking",
+    required=["submodule_cases", "aborts_checked", "proceeds_checked", "pattern_file_dirty_with_allow_dirty", "untracked_unrelated_not_blocking",
               "bump_commit_content_checked"],
     anchors=[("vcs", "assert_not_dirty"), ("cli", "_update")],
     exhaustive={"quick": True, "thorough": True},
@@ -61,6 +63,12 @@ def cases(ctx):
                         if ctx.mine(k):
                             yield {"layout": li, "p_status": st if role == "pattern" else "clean",
                                    "u_status": st if role == "unrelated" else "clean", "allow": allow, "rep": rep}
+                        k += 1
+            for st in SUB_STATUSES:
+                for allow in (False, True):
+                    for ps in ("clean", " M"):
+                        if ctx.mine(k):
+                            yield {"layout": li, "p_status": ps, "u_status": st, "allow": allow, "rep": rep}
                         k += 1
             for ps, us in itertools.product(STATUSES[1:], STATUSES[1:]):
                 for allow in (False, True):
@@ -126,10 +134,22 @@ def run_case(ctx, case):
     d = harness.new_dir("g")
     try:
         git(d, "init", "-q", "-b", "main")
+        if us.startswith("sub:"):
+            # a library repository added as submodule vendor/lib
+            lib = d + ".lib"
+            os.makedirs(lib)
+            git(lib, "init", "-q", "-b", "main")
+            write(lib, "lib.txt", "lib\n")
+            git(lib, "add", "-A")
+            git(lib, "commit", "-q", "-m", "lib 1")
+            git(d, "-c", "protocol.file.allow=always", "submodule", "add", "-q", lib, "vendor/lib")
+            ufile = "vendor/lib"
         write(d, "bumpver.toml", cfg)
         write(d, "keep.txt", "keep\n")
         late = {}   # files that must not be part of the initial commit
         for rel, st, content in ((pfile, ps, pcontent), (ufile, us, ucontent)):
+            if st.startswith("sub:"):
+                continue
             if st in ("A ", "AM", "??"):
                 late[rel] = (st, content)
             elif st in ("R>", "RM>", "RD>"):
@@ -153,13 +173,20 @@ def run_case(ctx, case):
                 if st == "AM":
                     write(d, rel, content + "local edit\n")
         make_status(d, pfile, ps, pcontent)
-        make_status(d, ufile, us, ucontent)
+        if us.startswith("sub:"):
+            sub = os.path.join(d, "vendor/lib")
+            write(sub, "lib.txt", "lib\nmore\n")
+            git(sub, "commit", "-q", "-am", "lib 2")
+            if us == "sub:M ":
+                git(d, "add", "vendor/lib")
+        else:
+            make_status(d, ufile, us, ucontent)
         porcelain = git(d, "status", "--porcelain")
         want_codes = []
         for rel, st in ((pfile, ps), (ufile, us)):
             if st == "clean":
                 continue
-            code = {"R>": "R ", "RM>": "RM", "RD>": "RD"}.get(st, st)
+            code = {"R>": "R ", "RM>": "RM", "RD>": "RD", "sub: M": " M", "sub:M ": "M "}.get(st, st)
             hit = [ln for ln in porcelain.splitlines() if ln[:2] == code and rel in ln]
             if not hit:
                 raise harness.Skip(f"scenario-not-reproduced:{st}")
@@ -180,6 +207,8 @@ def run_case(ctx, case):
         desc = {"porcelain_before": porcelain, "argv": args, "pattern_file": pfile, "unrelated_file": ufile,
                 "expected": expect, "res": res.brief(), "porcelain_after": git(d, "status", "--porcelain")}
         ctx.evaluated((ps, us, allow, expect, case["layout"]), sample={k: desc[k] for k in ("porcelain_before", "argv", "expected")})
+        if us.startswith("sub:"):
+            ctx.count("submodule_cases")
         if p_dirty and allow:
             ctx.count("pattern_file_dirty_with_allow_dirty")
         if us == "??" and ps == "clean":
@@ -203,7 +232,7 @@ def run_case(ctx, case):
             return
         names = sorted(x for x in git(d, "show", "--name-only", "--format=", "HEAD").splitlines() if x)
         configured = sorted(["bumpver.toml", pfile])
-        if us in ("clean", " M", " D", "??"):
+        if us in ("clean", " M", " D", "??", "sub: M"):
             ctx.count("bump_commit_content_checked")
             if names != configured:
                 ctx.violation("other:bump_commit_contains_other_files", f"commit contains {names}, configured {configured} "
@@ -212,3 +241,4 @@ def run_case(ctx, case):
             ctx.violation("other:bump_commit_misses_configured_files", f"{names}", case=case, observed=desc)
     finally:
         harness.rm_dir(d)
+        harness.rm_dir(d + ".lib")
